@@ -1489,6 +1489,7 @@ func (m *Leaf) clone(parent Meta) interface{} {
 	if m.dtype != nil {
 		// each copy compiles its own type: default and units are inherited per leaf
 		dtype := *m.dtype
+		dtype.unionTypes = cloneTypes(m.dtype.unionTypes)
 		copy.dtype = &dtype
 	}
 	
@@ -1723,6 +1724,7 @@ func (m *LeafList) clone(parent Meta) interface{} {
 	if m.dtype != nil {
 		// each copy compiles its own type: default and units are inherited per leaf
 		dtype := *m.dtype
+		dtype.unionTypes = cloneTypes(m.dtype.unionTypes)
 		copy.dtype = &dtype
 	}
 	
